@@ -207,9 +207,17 @@ pub fn replay_net(case: &Value, rep: &mut Report) {
     if accepted != layers.len() || net.layers.len() != layers.len() {
         panic!("harness: layer count mismatch after builder replay");
     }
-    for (l, spec) in net.layers.iter_mut().zip(layers.iter()) {
-        let kind = str_of(spec, "kind");
-        install_params(l, kind, &spec["params"], spec["cfg"]["bias"].as_bool().unwrap_or(false));
+    let installed = guarded(|| {
+        for (l, spec) in net.layers.iter_mut().zip(layers.iter()) {
+            let kind = str_of(spec, "kind");
+            install_params(l, kind, &spec["params"], spec["cfg"]["bias"].as_bool().unwrap_or(false));
+        }
+    });
+    if let Err(e) = installed {
+        // a parameter tensor of another shape than the specification's
+        rep.mismatch("C08", "layer_built_with_other_shapes_than_the_size_formulas_give", &id, json!({"panic": e}), case);
+        rep.mismatch("C02", "layer_built_with_other_shapes_than_the_size_formulas_give", &id, json!({"panic": e}), case);
+        return;
     }
     rep.nontrivial(key);
 
